@@ -220,6 +220,7 @@ type vpKV struct {
 	lastOKStart int64 // issue instant of this handle's last successful write
 	cutLat    time.Duration
 	latResp   time.Duration // bound of the response leg (0 = immediate)
+	ackYield  bool
 	watchFailLeft int
 }
 
@@ -262,7 +263,9 @@ func (k *vpKV) end(op string, f int) int {
 	if f == vpFaultHangAfter {
 		vpBlockForever()
 	}
-	vpYield(op + ".ack")
+	if k.ackYield {
+		vpYield(op + ".ack") // scheduling point between application and response (stop-point harnesses)
+	}
 	vpDelay(op+".resp", 0, k.latResp)
 	if k.st.cut && f == vpFaultNone {
 		// applied, but the acknowledgement is lost
